@@ -237,7 +237,7 @@ func runC18(em *vEmitter, r *vRng) {
 	vStats["child-process-checks"] = nChild
 
 	// ---- reload on SIGHUP ----
-	nrel := 8
+	nrel := 8 // one per kind
 	if vThorough() {
 		nrel = 100
 	}
@@ -252,7 +252,9 @@ func runC18(em *vEmitter, r *vRng) {
 		// the new configuration
 		newBase := filepath.Join(ms.root, "newbase")
 		os.Mkdir(newBase, 0700)
-		kind := []string{"valid-new-dir", "new-default", "broken-yaml", "dir-fails-check", "unknown-default", "missing-dir"}[k%6]
+		kinds := []string{"valid-new-dir", "new-default", "broken-yaml", "dir-fails-check", "unknown-default", "missing-dir",
+			"same-dir-admin-unsupported", "same-dir-inconsistent"}
+		kind := kinds[k%len(kinds)]
 		newDef := uint(1)
 		newBaseUsed := ms.base
 		expectNew := false
@@ -273,6 +275,22 @@ func runC18(em *vEmitter, r *vRng) {
 			newBaseUsed = newBase
 		case "unknown-default":
 			os.WriteFile(ms.cfgfile, []byte(mYaml(ms.base, 77, ms.params)), 0600)
+		case "same-dir-admin-unsupported":
+			// same directory, well-formed configuration, but the only admin's parameter set is gone:
+			// the directory fails the check UNDER THE NEW configuration
+			var ps []mParam
+			for _, p := range ms.params {
+				if p.ID != 1 {
+					ps = append(ps, p)
+				}
+			}
+			newDef = 2
+			os.WriteFile(ms.cfgfile, []byte(mYaml(ms.base, 2, ps)), 0600)
+		case "same-dir-inconsistent":
+			// same directory, new default, but the directory has become inconsistent in the meantime
+			newDef = 2
+			os.WriteFile(filepath.Join(ms.base, "root.user"), []byte("x\n"), 0600)
+			os.WriteFile(ms.cfgfile, []byte(mYaml(ms.base, 2, ms.params)), 0600)
 		case "missing-dir":
 			os.WriteFile(ms.cfgfile, []byte(mYaml(filepath.Join(ms.root, "nowhere"), 1, ms.params)), 0600)
 		}
